@@ -60,7 +60,7 @@ func runs() []*run {
 	for _, c := range []struct {
 		cfg   loadbalancer.Config
 		quick bool
-	}{{loadbalancer.Config{NumServers: 1, NumClients: 1, BufferSize: 1}, true}, {loadbalancer.Config{NumServers: 2, NumClients: 2, BufferSize: 1}, true},
+	}{{loadbalancer.Config{NumServers: 1, NumClients: 1, BufferSize: 1}, true}, {loadbalancer.Config{NumServers: 1, NumClients: 2, BufferSize: 1}, true}, {loadbalancer.Config{NumServers: 2, NumClients: 2, BufferSize: 1}, true},
 		{loadbalancer.Config{NumServers: 2, NumClients: 2, BufferSize: 2}, true}, {loadbalancer.Config{NumServers: 2, NumClients: 3, BufferSize: 2}, false},
 		{loadbalancer.Config{NumServers: 3, NumClients: 3, BufferSize: 1}, false}, {loadbalancer.Config{NumServers: 3, NumClients: 2, BufferSize: 3}, false}} {
 		cfg := c.cfg
